@@ -3,12 +3,46 @@ complete (loop-free, full-domain) proof of the conversion and primitive contract
 UNIT = "u1k_cell"
 MOD = "verif_u1k::"
 KANI_FLAGS = []
-TRUSTED = ["u128 reference arithmetic in the harness (mulmod)"]
+TRUSTED = ["u128 reference arithmetic in the harness (mulmod)",
+           "the 12 assume_specification clauses listed for Verus unit u1_cell are DISCHARGED by u1k_stdspec_* (same clause text, real core functions, full domain); what stays trusted there: Verus reads >>, <<, `as` on machine integers as Rust does, and Kani's pinned core is the core /repo builds against"]
+
+
+import os, re
+
+_VERUS_UNIT = os.path.join(os.path.dirname(os.path.abspath(__file__)), "..", "verus", "u1_cell", "unit.rs")
+_ASSUME_RE = re.compile(r"assume_specification\s*\[\s*(u\d+)::(\w+)\s*\]\s*\(([^)]*)\)\s*->\s*\(r:\s*([^)]+)\)\s*ensures\s+r\s*==\s*(.*?);", re.S)
+
+
+def std_specs():
+    """The `assume_specification` clauses of the Verus unit u1_cell (contracts ASSUMED there about
+    uN::{checked_shr, checked_shl, wrapping_neg}), parsed on every run: [(type, fn, params, ret, expr)]."""
+    return [(m.group(1), m.group(2), [q.strip() for q in m.group(3).split(",")], m.group(4).strip(), " ".join(m.group(5).split()))
+            for m in _ASSUME_RE.finditer(open(_VERUS_UNIT).read())]
+
+
+def _stdspec_text():
+    """One loop-free harness per assumed clause: the SAME `ensures` expression, asserted of the real
+    std function over the full domain of its arguments (a complete proof of the assumed contract)."""
+    out = ["// GENERATED on every run from contracts/verus/u1_cell/unit.rs (assume_specification clauses)",
+           "#![allow(dead_code, unused_parens)]"]
+    for ty, fn, params, ret, expr in std_specs():
+        out.append("#[kani::proof]\nfn u1k_stdspec_%s_%s() {" % (ty, fn))
+        names = []
+        for q in params:
+            n, t = [z.strip() for z in q.split(":")]
+            names.append(n)
+            out.append("    let %s: %s = kani::any();" % (n, t))
+        out.append("    let r: %s = %s::%s(%s);" % (ret, ty, fn, ", ".join(names)))
+        out.append("    assert!(r == (%s));" % expr)
+        out.append("}")
+    return "\n".join(out) + "\n"
 
 
 def overlay(tier):
     return [{"src": "u1k_cell.rs", "dest": "src/verif_u1k_cell.rs", "mod_in": "src/lib.rs",
              "mod_name": "verif_u1k", "params": {}},
+            {"src": _stdspec_text(), "dest": "src/verif_u1k_stdspec.rs", "mod_in": "src/lib.rs",
+             "mod_name": "verif_u1k_std", "params": {}},
             {"src": "u1k_optsum.rs", "dest": "src/verif_u1k_optsum.rs", "mod_in": "src/opt.rs",
              "mod_name": "verif_u1k_opt", "params": {}}]
 
@@ -42,4 +76,12 @@ def harnesses(tier, seed):
                    "clause": "ring operations modulo 2^%d; shifts by >= BITS yield 0; trailing_zeros == BITS for 0 else the 2-adic valuation" % w,
                    "properties": ["C14"], "bounded_by": None,
                    "complete_over": "full domain of every argument (loop-free)", "timeout": t})
+    specs = std_specs()
+    if len(specs) != 12:
+        raise RuntimeError("lost anchor: expected 12 assume_specification clauses in u1_cell/unit.rs, found %d" % len(specs))
+    for ty, fn, params, ret, expr in specs:
+        hs.append({"name": "verif_u1k_std::u1k_stdspec_%s_%s" % (ty, fn), "function": "core %s::%s (std; the contract the Verus unit u1_cell ASSUMES via assume_specification)" % (ty, fn),
+                   "clause": "r == " + expr, "properties": ["C14"], "bounded_by": None,
+                   "complete_over": "full domain of every argument (loop-free; clause text parsed from the Verus unit on every run)", "timeout": t,
+                   "allow_unreachable": []})
     return hs
